@@ -53,6 +53,10 @@ func zooGenOpts(r *hx.Rand, name string) (zooOpts, string) {
 		o.mode = hx.Pick(r, []string{"json-ld-1.0", "json-ld-1.1"})
 		tags = append(tags, o.mode)
 	}
+	if name == "htmljsonld" && r.Bool() {
+		o.listener = true
+		tags = append(tags, "listener")
+	}
 	switch r.Intn(4) {
 	case 1:
 		o.sizes = []int{1}
